@@ -57,13 +57,14 @@ Definition out_of (T : list str) (G : sgraph) : sgraph := filter (subj_in T) G.
 (** incoming statements of the targets *)
 Definition into (T : list str) (G : sgraph) : sgraph := filter (obj_in T) G.
 
-(** what the property calls "the triples of the targets": outgoing, plus
-    incoming with inverse paths.  A statement linking two targets occurs in
-    both parts. *)
+(** outgoing, plus incoming with inverse paths; a statement linking two
+    targets occurs in both parts (what the yielder delivered before the repair
+    of finding C15-F2; kept for reference) *)
 Definition neighbourhood (inverse : bool) (T : list str) (G : sgraph) : sgraph :=
   out_of T G ++ (if inverse then into T G else []).
 
-(** the same without the repetition: every statement touching a target, once *)
+(** what the property calls "the triples of the targets": every statement
+    touching a target, once *)
 Definition touching (inverse : bool) (T : list str) (G : sgraph) : sgraph :=
   filter (fun t => subj_in T t || (inverse && obj_in T t)) G.
 
